@@ -10,7 +10,7 @@ CONSTANTS
   EncChoices = {FALSE, TRUE}
   ByValueMax = 2
   AllowConflicts = FALSE
-  Features = {"psk", "gce", "reinit", "badkp", "storage", "custom"}
+  Features = {"psk", "gce", "reinit", "badkp", "storage", "custom", "newmember"}
   Window = 1024
   Retention = 3
   BurstSizes = {1, 2}
